@@ -1,1 +1,66 @@
-From TL Require Import Base.Base.
+(* C09 - Reading is correct and printing round-trips.                        *)
+(* Statements only; the proofs are in Proofs/ReadPrint.v and Proofs/Decimal.v. *)
+From TL Require Import Base.Base Model.Reader Model.Printer Model.Store Model.Eval Model.Init.
+From TL Require Import Proofs.Decimal Proofs.ReadPrint.
+Local Open Scope list_scope.
+
+(* The parser inverts the token-level printer: for every data value (nil, t, *)
+(* integers, floats, strings, symbols, proper AND dotted lists to any depth,   *)
+(* the quote / backquote / unquote / splice marks), any source spans and any    *)
+(* following tokens, parsing the value's token sequence yields exactly that     *)
+(* value - same constructors, same structure - and leaves the following tokens. *)
+Theorem C09_parser_inverts_printer : forall fl,
+  t_interned fl = false -> nil_interned fl = false ->
+  forall v, rdata v -> forall fuel ts rest, map fst ts = toks v -> (List.length ts < fuel)%nat ->
+  exists a, parse_value fl fuel (ts ++ rest) = Ok (Some (a, rest)) /\ strip a = v.
+Proof. intros fl Ht Hn v. exact (parse_inverts_value fl Ht Hn v). Qed.
+
+(* characters: a printed string token (double quote and backslash escaped, the rest *)
+(* raw - newlines, non-ASCII) is read back as the same string, whatever         *)
+(* follows the closing quote                                                    *)
+Theorem C09_string_roundtrip : forall s line pos sl sc rest,
+  exists l p, read_string (escape_string s ++ c_dq :: rest) line pos sl sc []
+              = Ok (Some (TStr s, Build_span sl sc l p, rest, l, p)).
+Proof. intros. exact (read_string_escape s line pos sl sc [] rest). Qed.
+
+(* characters: a printed i64 is converted back to the same integer *)
+Theorem C09_integer_roundtrip : forall z, in_i64 z = true -> parse_i64 (print_Z z) = Some z.
+Proof. exact parse_print_Z. Qed.
+Theorem C09_integer_printing_injective : forall a b, print_Z a = print_Z b -> a = b.
+Proof. exact print_Z_inj. Qed.
+
+Print Assumptions C09_parser_inverts_printer. Print Assumptions C09_string_roundtrip.
+Print Assumptions C09_integer_roundtrip. Print Assumptions C09_integer_printing_injective.
+
+(* characters, whole values (computed): print then read gives the value back, *)
+(* and other layouts (newlines, tabs, comments) read as the same value          *)
+Definition F0 : fops :=
+  {| f_add := fun _ _ => 0%Z; f_sub := fun _ _ => 0%Z; f_mul := fun _ _ => 0%Z;
+     f_div := fun _ _ => 0%Z; f_rem := fun _ _ => 0%Z; f_pow := fun _ _ => 0%Z;
+     f_max := fun _ _ => 0%Z; f_min := fun _ _ => 0%Z; f_of_int := fun z => z;
+     f_to_int := fun z => z; f_round := fun z => z; f_trunc := fun z => z;
+     f_lt := Z.ltb; f_le := Z.leb; f_eq := Z.eqb; f_is_finite := fun _ => true;
+     f_to_dec := fun _ => []; f_of_dec := fun _ => None |}.
+Definition fl0 := {| t_interned := false; nil_interned := false |}.
+Definition reread (v : sx) : res (list sx) :=
+  match read_ax F0 fl0 (print F0 v) with Ok l => Ok (map strip l) | Err e => Err e | Panic n => Panic n | Fuel => Fuel end.
+Definition v0 : sx :=
+  of_list [Int (-42); Str (s2t "a""b\c"); Sym (s2t "foo-bar"); Sym (s2t ":kw"); Nil; T;
+           Cons (Int 1) (Int 2); of_list [Int 1; of_list [Sym (s2t "x")] (Sym (s2t "y"))] Nil;
+           Quote (Sym (s2t "q")); Bq (of_list [Sym (s2t "a"); Unq (Sym (s2t "b")); Splice (Sym (s2t "c"))] Nil);
+           Int 9223372036854775807; Int (-9223372036854775808)] Nil.
+Example C09_print_read : reread v0 = Ok [v0].
+Proof. vm_compute. reflexivity. Qed.
+Example C09_layouts :
+  match read_ax F0 fl0 (s2t "(a ; comment
+   (b . c)	'd  ""s"" -7 )") with
+  | Ok [a] => strip a = of_list [Sym (s2t "a"); Cons (Sym (s2t "b")) (Sym (s2t "c"));
+                                 Quote (Sym (s2t "d")); Str (s2t "s"); Int (-7)] Nil
+  | _ => False
+  end.
+Proof. vm_compute. reflexivity. Qed.
+
+Check C09_parser_inverts_printer : forall fl,
+  t_interned fl = false -> nil_interned fl = false ->
+  forall v, rdata v -> forall fuel ts rest, map fst ts = toks v -> (List.length ts < fuel)%nat ->
+  exists a, parse_value fl fuel (ts ++ rest) = Ok (Some (a, rest)) /\ strip a = v.
